@@ -126,6 +126,53 @@ func HelloExtMutations(msg []byte, all bool) []HelloMutation {
 		// body extended by one zero byte
 		add(append(append([]helloExt(nil), without...), helloExt{e.typ, append(append([]byte(nil), e.body...), 0)}), true, "body extended, moved last")
 	}
+	// code-point lists (signature_algorithms, supported_groups, ec_point_formats): the first entry replaced by
+	// each value of a catalogue of registered, GM-specific, reserved and unassigned code points, and the list
+	// reduced to that single entry
+	for i, e := range exts {
+		var width int
+		var cat []uint16
+		switch e.typ {
+		case 13:
+			width = 2
+			cat = []uint16{0x0000, 0x0101, 0x0201, 0x0203, 0x0204, 0x0301, 0x0401, 0x0403, 0x0501, 0x0503, 0x0601, 0x0603, 0x0707, 0x0708, 0x0804, 0x0805, 0x0806, 0x0807, 0x0809, 0x0404, 0x0104, 0xfe00, 0xffff}
+		case 10:
+			width = 2
+			cat = []uint16{0, 1, 22, 23, 24, 25, 26, 29, 30, 41, 249, 256, 0xfe00, 0xff01, 0xffff}
+		case 11:
+			width = 1
+			cat = []uint16{1, 2, 3, 0xff}
+		default:
+			continue
+		}
+		if len(e.body) < 2+width && !(width == 1 && len(e.body) >= 2) {
+			continue
+		}
+		hdr := 2
+		if width == 1 {
+			hdr = 1
+		}
+		for _, v := range cat {
+			b := append([]byte(nil), e.body...)
+			if width == 2 {
+				b[hdr], b[hdr+1] = byte(v>>8), byte(v)
+			} else {
+				b[hdr] = byte(v)
+			}
+			m := append([]helloExt(nil), exts...)
+			m[i] = helloExt{e.typ, b}
+			add(m, true, "code-point list: first entry replaced")
+			var single []byte
+			if width == 2 {
+				single = []byte{0, 2, byte(v >> 8), byte(v)}
+			} else {
+				single = []byte{1, byte(v)}
+			}
+			m2 := append([]helloExt(nil), exts...)
+			m2[i] = helloExt{e.typ, single}
+			add(m2, true, "code-point list: single entry")
+		}
+	}
 	// every known extension type with an empty body as the only and as the last extension
 	for t := 0; t <= 0x24; t++ {
 		add([]helloExt{{uint16(t), nil}}, true, "empty known-range extension alone")
